@@ -743,6 +743,31 @@ def single_def(fn: FuncDef, name: str) -> Optional[ast.AST]:
     return None
 
 
+def expand_locals(fn: FuncDef, e: ast.AST, depth: int = 3) -> ast.AST:
+    """Copy of e with every local that has exactly one defining expression in fn replaced by that expression (bounded depth).
+    Returns e itself (same object) when nothing was replaced."""
+    import copy
+    params = {a.arg for a in fn.args.posonlyargs + fn.args.args + fn.args.kwonlyargs}
+    changed = [False]
+
+    class _S(ast.NodeTransformer):
+        def __init__(self, d: int):
+            self.d = d
+
+        def visit_Name(self, node: ast.Name):
+            if isinstance(node.ctx, ast.Load) and node.id not in params and self.d > 0:
+                dd = single_def(fn, node.id)
+                if dd is not None and isinstance(dd, ast.expr) and not isinstance(dd, (ast.Await, ast.Yield, ast.YieldFrom)):
+                    changed[0] = True
+                    return _S(self.d - 1).visit(copy.deepcopy(dd))
+            return node
+
+        def visit_Lambda(self, node):
+            return node
+    out = _S(depth).visit(copy.deepcopy(e))
+    return out if changed[0] else e
+
+
 def resolve_expr(fn: FuncDef, e: ast.AST, depth: int = 3) -> ast.AST:
     """Follow `x` to its unique defining expression (bounded)."""
     cur = e
